@@ -57,12 +57,12 @@ Proof. exact recover_idempotent. Qed.
 (* non-vacuity: quota 1, three writers (ids 1, 2, 1).  Writers 0 and 1 race: 0 reserves, 1 is
    refused while 0 is still in flight, 0 finishes; then writer 2 (same id as 0) is refused
    because the quota is used up.  Quiescent, one entity, usage 1, the refused writers wrote
-   nothing.  With quota 2 the same schedule lets writer 2 overwrite id 1: usage stays at the
+   nothing.  With quota 3 the same schedule lets writer 2 overwrite id 1: usage ends at the
    number of stored entities (2), not at the number of accepted calls (3). *)
 Example C18_nonvacuous :
   let sched := [0; 1; 0; 0; 0; 2; 2; 2; 2; 1; 1; 1]%nat in
   let s := run (init (Some 1) [1; 2; 1]) sched in
-  let s2 := run (init (Some 2) [1; 2; 1]) sched in
+  let s2 := run (init (Some 3) [1; 2; 1]) sched in
   quiescent s = true /\ map result_of (threads s) = [Some Accepted; Some Refused; Some Refused] /\
   stored s = [1] /\ usage s = 1 /\ wal s = [(0%nat, 1)] /\
   quiescent s2 = true /\ map result_of (threads s2) = [Some Accepted; Some Accepted; Some Accepted] /\
